@@ -32,7 +32,8 @@ Definition emit (w : wstate) (s : seg) : str := format_seg (wd w) s ++ w_eol w.
 
 (* _get_trailer_segment: built as text and parsed with the writer's delimiters *)
 (* '{id}'.format(id=None) prints None *)
-Definition show_oid (o : option str) : str := match o with Some v => v | None => l "None" end.
+(* '' if id is None else id *)
+Definition show_oid (o : option str) : str := match o with Some v => v | None => [] end.
 
 Definition trailer (w : wstate) (id : string) (count : Z) (loop_id : option str) : seg :=
   parse_seg (wd w) (l id ++ [ele_term (wd w)] ++ fmt_Z count ++ [ele_term (wd w)] ++ show_oid loop_id).
